@@ -94,6 +94,10 @@ fn errno_of(e: &io::Error) -> u64 {
     if std::env::var_os("C14_DEBUG").is_some() {
         eprintln!("error: {e:?}");
     }
+    if e.kind() == io::ErrorKind::ResourceBusy {
+        // the driver maps ENOBUFS (buffer pool exhausted) to ResourceBusy
+        return libc::ENOBUFS as u64;
+    }
     e.raw_os_error().map(|x| x as u64).unwrap_or(9000 + code_of(e.kind()))
 }
 
@@ -630,7 +634,7 @@ async fn run_receiver<R: Rd>(mut r: R, ops: Vec<Op>, d: Rc<Dir>) {
                         Err(e) => {
                             dd.log.push([6, dd.dir, idx, errno_of(&e), 0, 0, 4]);
                             // out of pool buffers: the stream re-submits
-                            e.raw_os_error() == Some(libc::ENOBUFS)
+                            e.kind() == io::ErrorKind::ResourceBusy
                         }
                     }
                 };
